@@ -525,6 +525,7 @@ macro_rules! kern_for_type {
     }};
 }
 
+
 // --------------------------------------------------------------------------------------- transpose level
 
 /// one `transpose_matrix::<T>` call: request `xpose <bits> <class> <width> <height> m:<data> m:<result before>`
@@ -661,6 +662,7 @@ pub fn main_emit(args: &[String]) -> i32 {
             kern_for_type!(u64, U64_REDUCE1_XANY, U64_REDUCE2_XANY, U64_MAP2_XANY, U64_MAP1V_XANY, &mut rng, cases, out);
         },
         "xpose" => xpose_cases(&mut rng, cases, &mut out),
+        "safe" => crate::emit_safe::safe_cases(seed, cases, &mut out),
         other => {
             eprintln!("unknown level {other}");
             return 2;
